@@ -15,7 +15,7 @@ var LongName = strings.Repeat("L", 255)
 
 var Sizes = []int{0, 1, 5, 100, 4096, 32767, 32768, 32769, 65536, 70000}
 
-var Mtimes = []int64{0, 1, -1500000000_000000005, 4102444800_123456789, 1600000000_000000000, 1234567890_987654321}
+var Mtimes = []int64{0, 1, -1500000000_000000005, -1400000000_600000000, 4102444800_123456789, 1600000000_000000000, 1234567890_987654321}
 
 type GenOpt struct {
 	MaxEntries int
